@@ -18,7 +18,7 @@ from concurrent.futures import ThreadPoolExecutor
 
 REPO = "/repo"
 VERIF = "/verif"
-ROOT = "/tmp/fqmut"
+ROOT = os.environ.get("FQMUT_ROOT", "/tmp/fqmut")
 ALL = ["C%02d" % i for i in range(1, 20)]
 HARVEST = False
 
